@@ -51,7 +51,7 @@ static void gains_cb(const silk_decoder_state *psDec,const silk_decoder_control 
   for(int k=0;k<psDec->nb_subfr;k++) if(g_enc[g_pkt][j][k]>0){ double q=(double)c->Gains_Q16[k]/g_enc[g_pkt][j][k]; if(q<g_minratio) g_minratio=q; if(q>g_maxratio) g_maxratio=q; g_seen++; if(c->Gains_Q16[k]==g_enc[g_pkt][j][k]) g_exact++; }
   if(getenv("C09_DEBUG")&&atoi(getenv("C09_DEBUG"))>=2) fprintf(stderr,"  lbrr of packet %d frame %d decoded gains %d %d %d %d encoder's %d %d %d %d\n",g_pkt,j,c->Gains_Q16[0],c->Gains_Q16[1],c->Gains_Q16[2],c->Gains_Q16[3],g_enc[g_pkt][j][0],g_enc[g_pkt][j][1],g_enc[g_pkt][j][2],g_enc[g_pkt][j][3]); }
 #define MAXP 3200
-typedef struct { int n, fs, ch, Fs, mode, fidx; unsigned char *pkt[MAXP]; int len[MAXP]; opus_uint32 rng[MAXP]; int lbrr[MAXP]; float *twin; } cstream;
+typedef struct { int n, fs, ch, Fs, mode, fidx; unsigned char *pkt[MAXP]; int len[MAXP]; opus_uint32 rng[MAXP]; int lbrr[MAXP]; float *twin, *twin16, *twin24; } cstream;
 static int g_steady=0;   /* 1: stationary noise after a quiet 1.5 s lead-in (instead of speech-like bursts) */
 static void make_stream(vc_rng *r,cstream *s,int want_ms){ int err; static const int mfs[3][5]={{2,3,4,5,3},{2,3,3,3,2},{0,1,2,3,3}}; int mode=VK_MODE_SILK+(int)vc_below(r,3); if(g_steady) mode=VK_MODE_CELT;   /* the stationary stimulus is for the CELT noise-floor tracker only: SILK's comfort noise legitimately continues stationary noise at its level */ int eFs=vc_chance(r,2,3)?48000:VC_PICK(r,vk_rates); int ch=1+vc_below(r,2); int fidx=mfs[mode-VK_MODE_SILK][vc_below(r,5)];
   /* one stream in three changes its configuration while running (forced channels, audio bandwidth, coding mode): transitions, redundancy frames and LBRR across a change are then inside the loss windows */
@@ -68,8 +68,12 @@ static void make_stream(vc_rng *r,cstream *s,int want_ms){ int err; static const
     vs_fill(&g,in,efs); if(g_steady&&(long long)k*efs<(long long)eFs*3/2) for(int q=0;q<efs*ch;q++) in[q]*=0.002f; g_pkt=s->n; int len=opus_encode_float(e,in,efs,buf,1500); if(len<=0) break; s->pkt[s->n]=vc_exact_copy(buf,len); s->len[s->n]=len; opus_encoder_ctl(e,OPUS_GET_FINAL_RANGE(&s->rng[s->n])); s->lbrr[s->n]=opus_packet_has_lbrr(buf,len)>0; s->n++; }
   g_phase=0; opus_encoder_destroy(e); s->Fs=vc_chance(r,2,3)?eFs:VC_PICK(r,vk_rates); s->ch=vc_chance(r,3,4)?ch:1+(int)vc_below(r,2); s->fs=(int)((long long)efs*s->Fs/eFs); s->mode=mixed?0:mode; s->fidx=fidx; if(sw) vc_count("streams_with_configuration_changes",1);
   /* loss-free twin */
-  s->twin=(float*)malloc(sizeof(float)*(size_t)s->n*s->fs*s->ch); OpusDecoder *d=opus_decoder_create(s->Fs,s->ch,&err); g_mid=NULL; for(int k=0;k<s->n;k++){ int rc=opus_decode_float(d,s->pkt[k],s->len[k],s->twin+(size_t)k*s->fs*s->ch,s->fs,0); if(rc!=s->fs){ fprintf(stderr,"twin decode %d\n",rc); exit(3); } } g_phase=0; g_mid=NULL; opus_decoder_destroy(d); }
-static void free_stream(cstream *s){ for(int i=0;i<s->n;i++) free(s->pkt[i]); free(s->twin); }
+  s->twin=(float*)malloc(sizeof(float)*(size_t)s->n*s->fs*s->ch); OpusDecoder *d=opus_decoder_create(s->Fs,s->ch,&err); g_mid=NULL; for(int k=0;k<s->n;k++){ int rc=opus_decode_float(d,s->pkt[k],s->len[k],s->twin+(size_t)k*s->fs*s->ch,s->fs,0); if(rc!=s->fs){ fprintf(stderr,"twin decode %d\n",rc); exit(3); } } g_phase=0; g_mid=NULL; opus_decoder_destroy(d);
+  /* loss-free twins through the 16-bit and 24-bit entry points (patterns decoded through those are compared with these) */
+  { size_t tot=(size_t)s->n*s->fs*s->ch; s->twin16=(float*)malloc(sizeof(float)*tot); s->twin24=(float*)malloc(sizeof(float)*tot); static opus_int16 t16[5760*2]; static opus_int32 t24[5760*2]; OpusDecoder *d16=opus_decoder_create(s->Fs,s->ch,&err), *d24=opus_decoder_create(s->Fs,s->ch,&err);
+    for(int k=0;k<s->n;k++){ size_t o=(size_t)k*s->fs*s->ch; int r1=opus_decode(d16,s->pkt[k],s->len[k],t16,s->fs,0), r2=opus_decode24(d24,s->pkt[k],s->len[k],t24,s->fs,0); if(r1!=s->fs||r2!=s->fs){ vc_viol("received:duration","loss-free decode of packet %d through the 16/24-bit entry points returned %d/%d, expected %d",k,r1,r2,s->fs); r1=r2=0; memset(t16,0,sizeof t16); memset(t24,0,sizeof t24); } for(int i=0;i<s->fs*s->ch;i++){ s->twin16[o+i]=t16[i]*(1.f/32768.f); s->twin24[o+i]=t24[i]*(1.f/8388608.f); } }
+    opus_decoder_destroy(d16); opus_decoder_destroy(d24); } }
+static void free_stream(cstream *s){ for(int i=0;i<s->n;i++) free(s->pkt[i]); free(s->twin); free(s->twin16); free(s->twin24); }
 
 typedef struct { double blk[25]; double pk[25]; int nb; double acc; double accpk; int accn; int blkn; } recent_t;   /* last 500 ms of normally decoded audio in 20 ms blocks */
 static void recent_reset(recent_t *q,int Fs){ memset(q,0,sizeof *q); q->blkn=Fs/50; }
@@ -95,9 +99,18 @@ static int check_concealed(const float *x,int n,int ch,const recent_t *q,double 
       if(lvl>0.02&&r2>C09_DELTA*lvl){ vc_viol("conceal:no-decay","%s: after %.0f ms of continuous loss the output level over 200 ms, %.4f, is still %.2f x the pre-loss level %.4f (%s)",what,t,r2,r2/lvl,lvl,ctx); return 1; } } } }
   return 0; }
 
+/* sample format of the decoder calls of one pattern: 0 float, 1 16-bit, 2 24-bit (converted to float for the numeric oracles; return values
+   and durations are those of the entry point used) */
+static int g_api=0, g_dec_ch=1;
+static int dec_api(OpusDecoder *d,const unsigned char *p,int len,float *out,int fs,int fec){
+  if(g_api==0||fs<=0||fs>5760) return opus_decode_float(d,p,len,out,fs,fec);
+  static opus_int16 t16[5760*2]; static opus_int32 t24[5760*2]; int ch=g_dec_ch, rc;
+  if(g_api==1){ rc=opus_decode(d,p,len,t16,fs,fec); for(int i=0;i<rc*ch;i++) out[i]=t16[i]*(1.f/32768.f); vc_count("calls_through_16bit_api",1); }
+  else { rc=opus_decode24(d,p,len,t24,fs,fec); for(int i=0;i<rc*ch;i++) out[i]=t24[i]*(1.f/8388608.f); vc_count("calls_through_24bit_api",1); }
+  return rc; }
 static long fec_better=0, lbrr_sub=0, lbrr_silent=0;
 static int decode_pattern(const cstream *s,OpusDecoder *d,OpusDecoder *clone,const unsigned char *lost,int shape,const char *ctx,double *fec_err,double *plc_err,long *fec_events){
-  static float out[5760*2], out2[5760*2]; int fs=s->fs, ch=s->ch, Fs=s->Fs; recent_t q; recent_reset(&q,Fs); int sz=opus_decoder_get_size(ch); double lossms=0; int last_loss=-1000; double sig=0,noi=0; long rn=0; double racc_n=0,racc_s=0; long racc_k=0, rblk=0, rbad=0; int dec_celt=-1;   /* mode of the last packet the decoder actually decoded (1 = MDCT-only) */   /* recovery: per >=20 ms block of audible twin audio, SNR against the twin */
+  static float out[5760*2], out2[5760*2]; int fs=s->fs, ch=s->ch, Fs=s->Fs; g_dec_ch=ch; const float *TW= g_api==1?s->twin16: g_api==2?s->twin24: s->twin; recent_t q; recent_reset(&q,Fs); int sz=opus_decoder_get_size(ch); double lossms=0; int last_loss=-1000; double sig=0,noi=0; long rn=0; double racc_n=0,racc_s=0; long racc_k=0, rblk=0, rbad=0; int dec_celt=-1;   /* mode of the last packet the decoder actually decoded (1 = MDCT-only) */   /* recovery: per >=20 ms block of audible twin audio, SNR against the twin */
   OpusDecoder *dbg_tw=NULL; if(getenv("C09_DEBUG")&&atoi(getenv("C09_DEBUG"))>=5){ int e2; dbg_tw=opus_decoder_create(Fs,ch,&e2); }
   dbg_ref=NULL; if(getenv("C09_DEBUG")&&atoi(getenv("C09_DEBUG"))>=6&&&ref_opus_decoder_create){ int e3; dbg_ref=ref_opus_decoder_create(Fs,ch,&e3); }
   opus_decoder_ctl(d,OPUS_RESET_STATE); cacc.e=0; cacc.p=0; cacc.n=0; dacc.e=0; dacc.n=0; cc_prev1s=0; cc_cur1s=0; cc_have1s=0;
@@ -107,15 +120,15 @@ static int decode_pattern(const cstream *s,OpusDecoder *d,OpusDecoder *clone,con
     if(lost[i]){ int next_ok=(i+1<s->n&&!lost[i+1]); int use_fec=(shape==2||shape==3)&&next_ok&&s->mode!=VK_MODE_CELT;
       if(use_fec&&dec_celt==1&&s->lbrr[i+1]) vc_count("fec_unavailable_decoder_in_celt_mode",1);
       if(use_fec){ /* the decoder conceals from a clone first (for comparison), then the real decoder uses the next packet's LBRR */
-        memcpy(clone,d,sz); int rp=opus_decode_float(clone,NULL,0,out2,fs,0); int want=fs; int big=(shape==3&&fs*2<=Fs/25*3); if(big) want=fs*2;   /* frame_size larger than the packet: concealment for the gap + LBRR */
-        g_phase=2; g_pkt=i; g_minratio=1e9; g_maxratio=0; g_seen=0; g_exact=0; int rf=opus_decode_float(d,s->pkt[i+1],s->len[i+1],out,want,1); g_phase=0; vc_count("fec_calls",1);
+        memcpy(clone,d,sz); int rp=dec_api(clone,NULL,0,out2,fs,0); int want=fs; int big=(shape==3&&fs*2<=Fs/25*3); if(big) want=fs*2;   /* frame_size larger than the packet: concealment for the gap + LBRR */
+        g_phase=2; g_pkt=i; g_minratio=1e9; g_maxratio=0; g_seen=0; g_exact=0; int rf=dec_api(d,s->pkt[i+1],s->len[i+1],out,want,1); g_phase=0; vc_count("fec_calls",1);
         if(g_seen){ vc_count("lbrr_subframe_gains_compared",g_seen); vc_count("lbrr_subframe_gains_equal_to_encoder",g_exact); vc_min("lbrr_decoded_gain_over_encoder_gain",g_minratio); vc_max("lbrr_decoded_gain_over_encoder_gain",g_maxratio);
           if(g_minratio<C09_LBRR_GAIN){ vc_viol("fec:lbrr-gain-collapsed","a frame rebuilt from the LBRR data in packet %d is decoded with a sub-frame gain %.4f x the gain the encoder quantised that LBRR frame with (%s)",i+1,g_minratio,ctx); return 1; } }
         if(rp!=fs||rf!=want){ vc_viol("fec:duration","FEC call returned %d for frame_size %d (concealment on the clone %d) %s",rf,want,rp,ctx); return 1; }
         const float *frame=out+(size_t)(want-fs)*ch; for(int k=0;k<want*ch;k++) if(!isfinite(out[k])){ vc_viol("fec:not-finite","non-finite sample in FEC output (%s)",ctx); return 1; }
         /* the concealed part (the gap before the LBRR frame, or everything when the packet has no LBRR) obeys the concealment bounds; a frame rebuilt from LBRR data is coded audio and may legitimately be an onset */
         if(big){ if(check_concealed(out,want-fs,ch,&q,lossms,Fs,"FEC call, concealed gap",ctx)) return 1; } if(!s->lbrr[i+1]){ if(check_concealed(frame,fs,ch,&q,lossms+(big?Dms:0),Fs,"FEC call on a packet without LBRR",ctx)) return 1; } else { cacc.e=0; cacc.p=0; cacc.n=0; }
-        if(!big){ double ef=0,ep=0; const float *t=s->twin+(size_t)i*fs*ch; for(int k=0;k<fs*ch;k++){ double a=frame[k]-t[k], b=out2[k]-t[k]; ef+=a*a; ep+=b*b; }
+        if(!big){ double ef=0,ep=0; const float *t=TW+(size_t)i*fs*ch; for(int k=0;k<fs*ch;k++){ double a=frame[k]-t[k], b=out2[k]-t[k]; ef+=a*a; ep+=b*b; }
           if(s->lbrr[i+1]&&dec_celt!=1){ /* (the decoder cannot use LBRR data while its previous frame was MDCT-only: it conceals instead, by design) */ /* per 20 ms sub-frame: a frame rebuilt from LBRR data must carry the audio, not near-silence */
             int sb=Fs/50, lf[3]; int nlf=lbrr_frame_flags(s->pkt[i+1],s->len[i+1],lf); if(sb<=fs&&nlf==fs/sb) for(int b0=0;b0+sb<=fs;b0+=sb){ if(!lf[b0/sb]){ vc_count("fec_subframes_without_lbrr_data",1); continue; } double et=0,efb=0; for(int k=b0*ch;k<(b0+sb)*ch;k++){ et+=(double)t[k]*t[k]; efb+=(double)frame[k]*frame[k]; } vc_count("fec_lbrr_subframes",1); lbrr_sub++; if(et>sb*ch*0.03*0.03&&efb<0.003*et){ vc_count("fec_lbrr_subframes_near_silent",1); lbrr_silent++; if(getenv("C09_DEBUG")) fprintf(stderr,"near-silent LBRR sub-frame: packet %d sub %d twin rms %.4f fec rms %.5f (%s)\n",i,b0/sb,sqrt(et/(sb*ch)),sqrt(efb/(sb*ch)),ctx); } }
             if(getenv("C09_DEBUG")&&ef>=ep) fprintf(stderr,"fec worse than plc: lost packet %d (toc %02x len %d) next toc %02x len %d: fec err %.4g plc err %.4g twin energy %.4g (%s)\n",i,s->pkt[i][0],s->len[i],s->pkt[i+1][0],s->len[i+1],ef,ep,({double tt=0; for(int k=0;k<fs*ch;k++) tt+=(double)t[k]*t[k]; tt;}),ctx);
@@ -128,18 +141,18 @@ static int decode_pattern(const cstream *s,OpusDecoder *d,OpusDecoder *clone,con
       int merge=1; if(shape==0&&(i&1)==0){ while(merge<3&&i+merge<s->n&&lost[i+merge]&&(merge+1)*fs<=Fs/25*3) merge++; }
       int total=fs*merge; int piece= shape==1?(Fs/400)*(1+(i*7+3)%8): shape==4?Fs/400 /* everything in 2.5 ms calls */ :total; if(piece>total) piece=total; int done=0; for(int k=0;k<total*ch;k++) out[k]=NAN;
       if(merge>1) vc_count("plc_calls_spanning_several_packets",1);
-      while(done<total){ int w=total-done<piece?total-done:piece; int rc=opus_decode_float(d,NULL,0,out+(size_t)done*ch,w,0); vc_count("plc_calls",1); if(rc!=w){ vc_viol("plc:duration","concealment call returned %d for frame_size %d (%s)",rc,w,ctx); return 1; } opus_int32 lpd=0; opus_decoder_ctl(d,OPUS_GET_LAST_PACKET_DURATION(&lpd)); if(lpd!=w){ vc_viol("plc:last-duration","last packet duration %d after concealing %d samples (%s)",lpd,w,ctx); return 1; } done+=w; }
+      while(done<total){ int w=total-done<piece?total-done:piece; int rc=dec_api(d,NULL,0,out+(size_t)done*ch,w,0); vc_count("plc_calls",1); if(rc!=w){ vc_viol("plc:duration","concealment call returned %d for frame_size %d (%s)",rc,w,ctx); return 1; } opus_int32 lpd=0; opus_decoder_ctl(d,OPUS_GET_LAST_PACKET_DURATION(&lpd)); if(lpd!=w){ vc_viol("plc:last-duration","last packet duration %d after concealing %d samples (%s)",lpd,w,ctx); return 1; } done+=w; }
       if(getenv("C09_DEBUG")&&atoi(getenv("C09_DEBUG"))>=6){ double e0=0,e1=0; for(int k=0;k<total;k++){ e0+=out[k*ch]*out[k*ch]; if(ch>1) e1+=out[k*ch+1]*out[k*ch+1]; } fprintf(stderr,"pkt %d LOST (toc %02x len %d) concealed %d samples rmsL %.4f rmsR %.4f\n",i,s->pkt[i][0],s->len[i],total,sqrt(e0/total),sqrt(e1/total)); if(dbg_ref){ static float o4[5760*2]; ref_opus_decode_float(dbg_ref,NULL,0,o4,total,0); double r0=0; for(int k=0;k<total;k++) r0+=o4[k*ch]*o4[k*ch]; fprintf(stderr,"      frozen reference decoder conceals the same loss at rmsL %.4f\n",sqrt(r0/total)); } }
       if(check_concealed(out,total,ch,&q,lossms,Fs,"concealment",ctx)) return 1; lossms+=Dms*merge; last_loss=i+merge-1; i+=merge-1; continue; }
-    int rc=opus_decode_float(d,s->pkt[i],s->len[i],out,fs,0); if(getenv("C09_DEBUG")&&atoi(getenv("C09_DEBUG"))>=6){ double e0=0,e1=0; for(int k=0;k<fs;k++){ e0+=out[k*ch]*out[k*ch]; if(ch>1) e1+=out[k*ch+1]*out[k*ch+1]; } fprintf(stderr,"pkt %d rx toc %02x len %d rmsL %.4f rmsR %.4f\n",i,s->pkt[i][0],s->len[i],sqrt(e0/fs),sqrt(e1/fs)); if(dbg_ref){ static float o4[5760*2]; ref_opus_decode_float(dbg_ref,s->pkt[i],s->len[i],o4,fs,0); } } opus_uint32 fr=0; opus_decoder_ctl(d,OPUS_GET_FINAL_RANGE(&fr)); vc_count("received_calls",1);
+    int rc=dec_api(d,s->pkt[i],s->len[i],out,fs,0); if(getenv("C09_DEBUG")&&atoi(getenv("C09_DEBUG"))>=6){ double e0=0,e1=0; for(int k=0;k<fs;k++){ e0+=out[k*ch]*out[k*ch]; if(ch>1) e1+=out[k*ch+1]*out[k*ch+1]; } fprintf(stderr,"pkt %d rx toc %02x len %d rmsL %.4f rmsR %.4f\n",i,s->pkt[i][0],s->len[i],sqrt(e0/fs),sqrt(e1/fs)); if(dbg_ref){ static float o4[5760*2]; ref_opus_decode_float(dbg_ref,s->pkt[i],s->len[i],o4,fs,0); } } opus_uint32 fr=0; opus_decoder_ctl(d,OPUS_GET_FINAL_RANGE(&fr)); vc_count("received_calls",1);
     if(rc!=fs){ vc_viol("received:duration","received packet %d returned %d expected %d (%s)",i,rc,fs,ctx); return 1; }
     if(fr!=s->rng[i]){ vc_viol("received:final-range","packet %d after losses decodes with final range %08x, encoder had %08x (%s)",i,fr,s->rng[i],ctx); return 1; }
     for(int k=0;k<fs*ch;k++) if(!isfinite(out[k])){ vc_viol("received:not-finite","non-finite sample in packet %d (%s)",i,ctx); return 1; }
     if(cc_have1s){ cc_prev1s=cc_cur1s; cc_have1s=0; } dacc.e=0; dacc.n=0; lossms=0; cacc.e=0; cacc.p=0; cacc.n=0; recent_push(&q,out,fs,ch); dec_celt=(s->pkt[i][0]&0x80)?1:0;
     /* recovery: from 1 s after the last loss, compare with the loss-free twin */
     if(dbg_tw&&last_loss>=0&&(i-last_loss)%20==0){ const unsigned char *a=(const unsigned char*)d,*b=(const unsigned char*)dbg_tw; int nd=0; char offs[400]; offs[0]=0; int prev=-100; for(int q=0;q<sz;q++) if(a[q]!=b[q]){ nd++; if(q-prev>8&&strlen(offs)<380) sprintf(offs+strlen(offs),"%d ",q); prev=q; } fprintf(stderr,"state diff +%d: %d bytes differ; offsets %s\n",i-last_loss,nd,offs); }
-    if(last_loss>=0&&getenv("C09_DEBUG")&&atoi(getenv("C09_DEBUG"))>=4){ const float *t=s->twin+(size_t)i*fs*ch; double n1=0,s1=0; for(int k=0;k<fs*ch;k++){ double a=out[k]-t[k]; n1+=a*a; s1+=(double)t[k]*t[k]; } fprintf(stderr,"after loss +%d packets toc %02x len %d: snr %.1f dB (sig %.3g)\n",i-last_loss,s->pkt[i][0],s->len[i],10*log10(s1/(n1+1e-20)),s1); }
-    if(last_loss>=0&&(i-last_loss)*Dms>=1000){ const float *t=s->twin+(size_t)i*fs*ch; double n1=0,s1=0; for(int k=0;k<fs*ch;k++){ double a=out[k]-t[k]; n1+=a*a; s1+=(double)t[k]*t[k]; } noi+=n1; sig+=s1; rn+=fs; racc_n+=n1; racc_s+=s1; racc_k+=fs; if(racc_k>=Fs/50){ if(racc_s>1e-6*racc_k*ch){ rblk++; if(racc_s<100*racc_n) rbad++; } racc_n=racc_s=0; racc_k=0; } } }
+    if(last_loss>=0&&getenv("C09_DEBUG")&&atoi(getenv("C09_DEBUG"))>=4){ const float *t=TW+(size_t)i*fs*ch; double n1=0,s1=0; for(int k=0;k<fs*ch;k++){ double a=out[k]-t[k]; n1+=a*a; s1+=(double)t[k]*t[k]; } fprintf(stderr,"after loss +%d packets toc %02x len %d: snr %.1f dB (sig %.3g)\n",i-last_loss,s->pkt[i][0],s->len[i],10*log10(s1/(n1+1e-20)),s1); }
+    if(last_loss>=0&&(i-last_loss)*Dms>=1000){ const float *t=TW+(size_t)i*fs*ch; double n1=0,s1=0; for(int k=0;k<fs*ch;k++){ double a=out[k]-t[k]; n1+=a*a; s1+=(double)t[k]*t[k]; } noi+=n1; sig+=s1; rn+=fs; racc_n+=n1; racc_s+=s1; racc_k+=fs; if(racc_k>=Fs/50){ if(racc_s>1e-6*racc_k*ch){ rblk++; if(racc_s<100*racc_n) rbad++; } racc_n=racc_s=0; racc_k=0; } } }
   /* recovery: from 1 s after the last loss the output is the loss-free twin's again.  Verdict on the fraction of audible >=20 ms blocks within C09_RECOVER_DB of the twin (a decoder that
      went through a loss keeps last-bit state differences for ever, and SILK's long-term predictor can amplify them for a few frames at a strong voiced onset seconds later: the
      closed-loop encoder only keeps its own synthesis on track); the aggregate SNR is reported */
@@ -150,8 +163,8 @@ static void mode_window(void){
   vc_rng r; vc_case_rng(&r,9); int err; int K=(int)vc_argl("k",8); cstream s; make_stream(&r,&s,3400); double Dms0=s.fs*1000.0/s.Fs; int pos_min=(int)(500/Dms0)+1, pos_max=s.n-K-(int)(1500/Dms0)-2; if(pos_max<pos_min){ vc_count("streams_too_short",1); free_stream(&s); return; }
   OpusDecoder *d=opus_decoder_create(s.Fs,s.ch,&err); OpusDecoder *clone=(OpusDecoder*)malloc(opus_decoder_get_size(s.ch)); int pos=vc_range(&r,pos_min,pos_max); char ctx[200]; static unsigned char lost[MAXP]; double fe=0,pe=0; long fev=0;
   fec_better=0; lbrr_sub=0; lbrr_silent=0;
-  for(unsigned pat=0;pat<(1u<<K);pat++){ memset(lost,0,sizeof lost); for(int b=0;b<K;b++) if(pat&(1u<<b)) lost[pos+b]=1; int shape=(pat*2654435761u>>13)&3; snprintf(ctx,sizeof ctx,"mode %d frame %.1f ms Fs %d ch %d window at %d pattern %#x shape %d",s.mode,s.fs*1000.0/s.Fs,s.Fs,s.ch,pos,pat,shape);
-    if(decode_pattern(&s,d,clone,lost,shape,ctx,&fe,&pe,&fev)) goto out; vc_count("patterns",1); }
+  for(unsigned pat=0;pat<(1u<<K);pat++){ memset(lost,0,sizeof lost); for(int b=0;b<K;b++) if(pat&(1u<<b)) lost[pos+b]=1; int shape=(pat*2654435761u>>13)&3; { unsigned a=(pat*40503u>>5)&7; g_api= a==6?1: a==7?2:0; } snprintf(ctx,sizeof ctx,"mode %d frame %.1f ms Fs %d ch %d window at %d pattern %#x shape %d api %d",s.mode,s.fs*1000.0/s.Fs,s.Fs,s.ch,pos,pat,shape,g_api);
+    if(decode_pattern(&s,d,clone,lost,shape,ctx,&fe,&pe,&fev)){ g_api=0; goto out; } g_api=0; vc_count("patterns",1); }
   /* near-silent LBRR reconstructions are reported (counters): an LBRR frame quantised with raised gains may legitimately code no pulses */
   if(fev>=40){ vc_max("fec_error_energy_over_plc_error_energy",fe/(pe+1e-20)); vc_count("fec_aggregates",1); vc_min("fec_fraction_of_events_better_than_plc",(double)fec_better/fev); if(fe>C09_RHO*pe||fec_better<C09_FRAC*fev){ vc_viol("fec:not-better-than-plc","over %ld lost frames whose next packet carries LBRR, FEC error energy is %.2f x the concealment error energy and only %ld are closer to the loss-free decoder than concealment (%s)",fev,fe/(pe+1e-20),fec_better,ctx); } else vc_count("fec_aggregate_checked",1); }
   vc_sig3((uint64_t)s.mode|((uint64_t)s.fidx<<12),(uint64_t)(s.Fs/8000)|((uint64_t)s.ch<<3),(uint64_t)K);
